@@ -1,9 +1,10 @@
 package main
 
 import (
-	"regexp"
 	"fmt"
 	"go/types"
+	"hash/fnv"
+	"regexp"
 	"sort"
 	"strings"
 )
@@ -322,6 +323,9 @@ type Universe struct {
 	structList []*structInfo
 	typeTags   map[string]int
 	tagTypes   []types.Type
+	tagIDs     []int
+	tagUsed    map[int]bool
+	strNames   map[string]bool
 	strLits    map[string]string // literal -> const name
 	strOrder   []string
 	ghostFlds  map[string][]ghostFieldDecl // type key -> ghost fields
@@ -336,7 +340,7 @@ type ghostFieldDecl struct {
 }
 
 func NewUniverse() *Universe {
-	return &Universe{structs: map[string]*structInfo{}, typeTags: map[string]int{}, strLits: map[string]string{},
+	return &Universe{structs: map[string]*structInfo{}, typeTags: map[string]int{}, tagUsed: map[int]bool{}, strNames: map[string]bool{}, strLits: map[string]string{},
 		ghostFlds: map[string][]ghostFieldDecl{}, boxes: map[Sort]bool{}, extraSorts: map[string]bool{}}
 }
 
@@ -514,9 +518,18 @@ func (u *Universe) TypeTag(t types.Type) Term {
 	if id, ok := u.typeTags[k]; ok {
 		return IntLit(int64(id))
 	}
-	id := len(u.typeTags) + 1
+	// the tag is a function of the type's name, not of the order in which types are met: a change in one unit must not
+	// renumber the tags in the queries of every other unit
+	h := fnv.New32a()
+	h.Write([]byte(k))
+	id := int(h.Sum32()&0x3fffffff) + 1
+	for u.tagUsed[id] {
+		id++
+	}
+	u.tagUsed[id] = true
 	u.typeTags[k] = id
 	u.tagTypes = append(u.tagTypes, t)
+	u.tagIDs = append(u.tagIDs, id)
 	return IntLit(int64(id))
 }
 
@@ -527,7 +540,13 @@ func (u *Universe) StrLit(s string) Term {
 	if n, ok := u.strLits[s]; ok {
 		return Term{n, SStr}
 	}
-	n := fmt.Sprintf("strlit_%d", len(u.strLits))
+	h := fnv.New64a()
+	h.Write([]byte(s))
+	n := fmt.Sprintf("strlit_%016x", h.Sum64())
+	for u.strNames[n] {
+		n += "x"
+	}
+	u.strNames[n] = true
 	u.strLits[s] = n
 	u.strOrder = append(u.strOrder, s)
 	return Term{n, SStr}
@@ -599,6 +618,7 @@ func (u *Universe) Prelude() string {
 		za := zeroArrs[n]
 		fmt.Fprintf(&b, "(declare-const %s %s)\n(assert (forall ((k %s)) (! (= (select %s k) %s) :pattern ((select %s k)))))\n", n, za[0], keySort(Sort(za[0])), n, za[1], n)
 	}
+	sort.Slice(u.strOrder, func(i, j int) bool { return u.strLits[u.strOrder[i]] < u.strLits[u.strOrder[j]] })
 	for i, s := range u.strOrder {
 		n := u.strLits[s]
 		fmt.Fprintf(&b, "(declare-const %s Str)\n(assert (= (strlen %s) %d))\n", n, n, len(s))
